@@ -197,7 +197,8 @@ Qed.
 Lemma step_inv forced s o : Inv s -> replace_ok s o = true -> Inv (step forced s o).
 Proof.
   intros [HG HE] Hok. unfold Inv, vals in *.
-  destruct o as [i m|i isint data| |mn mx me|dt raw]; cbn [step].
+  destruct o as [i m|i isint data| |mn mx me| |dt raw]; cbn [step];
+    [| | | |cbn [ds insts]; split; [exact HG|constructor]|].
   - destruct (m =? 2); cbn [ds insts].
     + split; [exact I|]. constructor; [exact I|constructor].
     + split; [exact HG|]. apply Forall_forall. intros e He.
@@ -278,7 +279,8 @@ Lemma step_proj forced s o : Inv s -> replace_ok s o = true ->
   proj (step forced s o) = spec_step forced (proj s) o.
 Proof.
   intros HI Hok. pose proof (step_inv forced s o HI Hok) as HI'.
-  unfold proj. destruct o as [i m|i isint data| |mn mx me|dt raw]; cbn [step spec_step].
+  unfold proj. destruct o as [i m|i isint data| |mn mx me| |dt raw]; cbn [step spec_step];
+    [| | | |reflexivity|].
   - destruct (m =? 2); cbn [insts ds]; [reflexivity|]. now rewrite set_mode_map.
   - rewrite smode_of_map. unfold mode_of.
     destruct (inst_of i (insts s)) as [m cache] eqn:Ei. cbn [fst].
@@ -398,6 +400,8 @@ Example c20_nonvacuous_replace :
   let ops := [OOpen 1 2; OWrite 1 false [Fin 8; NaN]; OOpen 2 1; OOpen 3 1;
               OWrite 2 false [Fin 24]; OWrite 3 false [Fin 40; NaN]; OWrite 2 false [Fin 8]] in
   hist_ok None init (firstn 3 ops) = true /\ hist_ok None init ops = false
+  /\ hist_ok None init [OOpen 1 2; OWrite 1 false [Fin 8; NaN]; OClose; OOpen 2 1;
+                         OWrite 2 false [Fin 24]] = true
   /\ hist_ok None init [OOpen 2 1; OOpen 3 1; OWrite 2 false [Fin 24];
                          OWrite 3 false [Fin 40; NaN]; OWrite 2 false [Fin 8]] = true.
 Proof. vm_compute. repeat split. Qed.
@@ -645,3 +649,12 @@ Example c20_chunks_nonvacuous :
   /\ chunk_mean_weighted [[Fin 8; Fin 16; Fin 24]; [NaN]; [Fin 40]] = MFin 264 12
   /\ chunk_mean_unweighted [[Fin 8; Fin 16; Fin 24]; [NaN]; [Fin 40]] = MFin 168 6.
 Proof. vm_compute. repeat split. Qed.
+
+(* ---- ndarray-valued scalar features (known finding) ------------------------------------------ *)
+Theorem ndarray_summaries_refuted :
+  exists l, npmin_l l <> nanmin_l l /\ npmax_l l <> nanmax_l l.
+Proof. exists [Fin 80; NaN; Fin 8]. vm_compute. split; discriminate. Qed.
+
+(* without NaN both agree *)
+Lemma npmin2_nonan a b : isnan a = false -> isnan b = false -> npmin2 a b = nanmin2 a b.
+Proof. intros Ha Hb. unfold npmin2, nanmin2. now rewrite Ha, Hb. Qed.
